@@ -21,7 +21,7 @@ PID = 'C12'
 
 META = {
     'technique': 'evaluation of the extracted copy_api_from_app + verify_settings control-flow graphs (C integer semantics) over the finite literal-induced partition of each configuration member, compared with the documented range table joined through the application option table',
-    'text': 'Decides, for every configuration member with a documented numeric range, that the set of values svt_av1_enc_set_parameter accepts equals the documented set - for all values of the member, because the code only compares it with literals and the probe set contains every comparison boundary - and checks the documented cross-parameter constraints. Divergences that exist today are genuine (code or documentation is wrong) and are frozen value-by-value in known_findings.json; a new divergence is a violation.',
+    'text': 'Decides, for every configuration member with a documented numeric range, that the set of values svt_av1_enc_set_parameter accepts equals the documented set - for all values of the member, because the code only compares it with literals and the probe set contains every comparison boundary - and checks the documented cross-parameter constraints. Divergences that exist today are genuine (code or documentation is wrong) and are frozen value-by-value in known_findings.json; a new divergence is a violation. Also decided: every member verify_settings tests is taken over from the caller by copy_api_from_app on every path, or under the same guard member under which it is tested (no stale values from an earlier call).',
     'note': 'oracle = Docs/svt-av1_encoder_user_guide.md; members whose option setter transforms the parsed number (units, shifts) or that have no numeric range in the table are not compared (listed in the evidence); other members are held at their defaults (plus the documented enabling context from the coupling table) while one member is probed',
     'ref': 'DESIGN.md section 5 C12',
 }
@@ -349,6 +349,7 @@ def run(P, rep, tier):
                '%s: configuration %s is %s by set_parameter, documentation requires %s' %
                (cite, over, 'rejected' if r else ('accepted' if r is False else 'undecided (%s)' % why), 'rejection' if expect else 'acceptance'))
     rep.floor('C12.COUPLED', 6)
+    run_copy(P, rep)
 
 
 def _short(vals):
@@ -356,3 +357,76 @@ def _short(vals):
     if len(vals) > 14:
         return str(vals[:7])[:-1] + ', ..., ' + str(vals[-5:])[1:]
     return str(vals)
+
+
+def run_copy(P, rep):
+    """C12.COPY - what verify_settings judges is what the caller passed *this time*: every member it tests is assigned by
+    copy_api_from_app on every path, or is assigned and tested under the same guard member (manual prediction structure,
+    HME region counts).  A member that is refreshed only under an unrelated condition keeps the value of an earlier call
+    (or zero), so out-of-range input is accepted and a stale invalid value rejects a valid configuration."""
+    vs = P.fn('verify_settings', 'EbEncHandle.c')
+    cap = P.fn('copy_api_from_app')
+    CFG = 'EbSvtAv1EncConfiguration.'
+    tests = {}
+    for parent, kind, cond, line in vs.ctl:
+        if cond is None or isinstance(cond[0], list) or kind not in ('if', 'else', 'for', 'while'):
+            continue
+    # tests with their own guards: walk events / blocks
+    for bid in vs.reach():
+        b = vs.blocks[bid]
+        c = b.get('fullcond')
+        if c is None:
+            continue
+        flds = {x for x in fields_in(c) if x.startswith(CFG)}
+        if not flds:
+            continue
+        guards = set()
+        evs = b['ev']
+        if evs:
+            for kind, cond, line in vs.ctl_chain(evs[-1]):
+                if cond is not None and not isinstance(cond[0], list) and pstr(strip(cond)) != pstr(strip(c)):
+                    guards |= {x for x in fields_in(cond) if x.startswith(CFG)}
+        for fl in flds:
+            # members read by the same condition (e.g. the region count passed along with the array) guard the test as well
+            tests.setdefault(fl, []).append((guards | flds) - {fl})
+    if len(tests) < 60:
+        raise AnalysisBroken('only %d configuration members found in the conditions of verify_settings' % len(tests))
+    n = 0
+    for fld in sorted(tests):
+        sts = [ev for ev in cap.events(('st',)) if ev['e'][0] in ('a', 'u') and last_field(strip(ev['e'][2])) == fld]
+        if not sts:
+            # copied with a memory copy (array members): not a per-path question
+            cps = [ev for ev, nm in cap.calls() if ev['e'][2] and any(last_field(strip(a)) == fld for a in ev['e'][2])]
+            rep.ob('C12.COPY', 'member:%s' % fld.split('.')[1], bool(cps), cap.loc(cps[0]) if cps else cap.loc(),
+                   'taken over by a block copy' if cps else 'tested by verify_settings but never taken over from the caller in copy_api_from_app', nontrivial=bool(cps))
+            continue
+        blocks = {ev['b'] for ev in sts}
+        seen, st, escaped = set(), [cap.entry], False
+        while st:
+            x = st.pop()
+            if x in seen or x in blocks:
+                continue
+            seen.add(x)
+            if x == cap.exit:
+                escaped = True
+                break
+            st.extend(s2 for s2 in cap.blocks[x]['succ'] if s2 is not None)
+        n += 1
+        if not escaped:
+            rep.ob('C12.COPY', 'member:%s' % fld.split('.')[1], True, cap.loc(sts[0]), 'assigned from the caller on every path')
+            continue
+        g = None
+        for ev in sts:
+            gs = set()
+            for kind, cond, line in cap.ctl_chain(ev):
+                if cond is not None and not isinstance(cond[0], list):
+                    gs |= {x for x in fields_in(cond) if x.startswith(CFG)}
+            g = gs if g is None else (g & gs)
+        g = (g or set()) - {fld}
+        same_guard = bool(g) and all(t & g for t in tests[fld])
+        rep.ob('C12.COPY', 'member:%s' % fld.split('.')[1], same_guard, cap.loc(sts[0]),
+               ('assigned and tested under the same guard (%s)' % sorted(x.split('.')[1] for x in g)) if same_guard else
+               ('taken over from the caller only under %s, but verify_settings tests it regardless: on the other paths it keeps the value of an earlier call (or zero), '
+                'so out-of-range input is accepted and a stale value can reject a valid configuration' %
+                (sorted(x.split('.')[1] for x in g) or 'some condition')))
+    rep.floor('C12.COPY', 60)
